@@ -10,6 +10,10 @@
 // plus the oracle's loop variable form the state; every transition re-executes the whole history
 // on fresh real objects. The reference (list of leaves of the model chain, "latest leaf at or
 // below b") is computed by the harness, never by asking the store.
+//
+// Every store construction leaks ≈3.7 descriptors (RunMigrations keeps a *sql.DB open) and the
+// sandbox caps a process at 20000, so the executions of a unit are carried out by short-lived
+// child processes of this same binary (execpool.go); the search itself is mc.BFS in the worker.
 package main
 
 import (
@@ -61,6 +65,15 @@ func families(tier string) ([]family, []int) {
 	return []family{{2, 9}, {3, 8}, {4, 7}}, []int{0, 1}
 }
 
+// depthFor: the third start state (finality two blocks ahead of the syncer) has a much larger
+// neighbourhood; it is searched one level less so that units stay comparable in cost.
+func depthFor(f family, init int) int {
+	if init == 2 {
+		return f.Depth - 1
+	}
+	return f.Depth
+}
+
 func units(tier string) []mc.Unit {
 	tags := []string{"FinalizedBlock", "SafeBlock", "LatestBlock"}
 	fams, inits := families(tier)
@@ -79,45 +92,35 @@ func units(tier string) []mc.Unit {
 					bits[k] = pat>>(f.Blocks-1-k)&1 == 1
 				}
 				// the configuration (finality tag, updates per info block) rotates over the units
-				p := params{Tag: tags[n%3], Upd: 1 + (n/3)%2, Init: init, Pattern: bits, Depth: f.Depth}
+				p := params{Tag: tags[n%3], Upd: 1 + (n/3)%2, Init: init, Pattern: bits, Depth: depthFor(f, init)}
 				n++
-				us = append(us, mc.Unit{Name: fmt.Sprintf("start=%d,blocks=%s,depth=%d,upd=%d,tag=%s", init, patternName(bits), f.Depth, p.Upd, p.Tag), Params: p})
+				us = append(us, mc.Unit{Name: fmt.Sprintf("start=%d,blocks=%s,depth=%d,upd=%d,tag=%s", init, patternName(bits), p.Depth, p.Upd, p.Tag), Params: p})
 			}
 		}
 	}
 	return us
 }
 
-// build is ONE execution: fresh real objects, start preamble, the history, then the state key, the
-// enabled events, and the frozen-environment probe (P2).
-var errMu gosync.Mutex
-
-func harnessError(r *mc.Report, format string, args ...any) {
-	errMu.Lock()
-	defer errMu.Unlock()
-	r.Errorf(format, args...)
-}
-
-func build(r *mc.Report, c *mc.Ctx, p params, history []string) (string, []string) {
+// execute is ONE execution: fresh real objects, start preamble, the history, then the state key,
+// the enabled events, and the frozen-environment probe (P2).
+func execute(c sink, p params, history []string) (string, []string, error) {
 	w, err := newWorld(c, p)
 	if err != nil {
-		harnessError(r, "unit %s: cannot build the world: %v", c.UnitName, err)
-		return "error", nil
+		return "", nil, fmt.Errorf("cannot build the world: %w", err)
 	}
 	defer w.close()
+	w.hist = history
 	pre := preambles[p.Init]
 	for i, ev := range pre {
 		w.live = len(history) == 0 && i == len(pre)-1
 		if err := w.step(ev, false); err != nil {
-			harnessError(r, "unit %s: preamble event %d %s: %v", c.UnitName, i, ev, err)
-			return "error", nil
+			return "", nil, fmt.Errorf("preamble event %d %s: %w", i, ev, err)
 		}
 	}
 	for i, ev := range history {
 		w.live = i == len(history)-1
 		if err := w.step(ev, true); err != nil {
-			harnessError(r, "unit %s: history %v event %d: %v", c.UnitName, history, i, err)
-			return "error", nil
+			return "", nil, fmt.Errorf("history %v event %d: %w", history, i, err)
 		}
 	}
 	w.live = false
@@ -140,55 +143,79 @@ func build(r *mc.Report, c *mc.Ctx, p params, history []string) (string, []strin
 		w.live, w.mute = true, false
 		w.failf("progress/gives-up-again-after-syncer-caught-up", "%s", msg)
 	}
-	return key, en
+	return key, en, nil
+}
+
+var errMu gosync.Mutex
+
+func harnessError(r *mc.Report, format string, args ...any) {
+	errMu.Lock()
+	defer errMu.Unlock()
+	r.Errorf(format, args...)
 }
 
 func runUnit(r *mc.Report, base *mc.Ctx, u mc.Unit) {
 	p := u.Params.(params)
-	mc.BFS(r, base, mc.BFSModel{MaxDepth: p.Depth, Build: func(c *mc.Ctx, h []string) (string, []string) { return build(r, c, p, h) }})
+	mc.BFS(r, base, mc.BFSModel{MaxDepth: p.Depth, Build: func(c *mc.Ctx, h []string) (string, []string) {
+		res := pool.do(request{P: p, H: h})
+		if res.Err != "" {
+			harnessError(r, "unit %s: %s", base.UnitName, res.Err)
+			return "error", nil
+		}
+		for _, o := range res.Obs {
+			c.Obs("%s", o)
+		}
+		for _, f := range res.Fails {
+			c.Failf(f[0], "%s", f[1])
+		}
+		for _, w := range res.Wit {
+			c.Witness(w)
+		}
+		return res.Key, res.Enabled
+	}})
 }
 
+// replay executes the recorded history in this process (one execution).
 func replay(c *mc.Ctx, u mc.Unit, v mc.Violation) {
-	p := u.Params.(params)
-	r := mc.NewReport("C15", v.Tier)
-	build(r, c, p, v.History)
-	for _, e := range r.Errors {
-		c.Obs("HARNESS ERROR %s", e)
+	if _, _, err := execute(c, u.Params.(params), v.History); err != nil {
+		c.Obs("HARNESS ERROR %v", err)
 	}
 }
 
 func main() {
+	if len(os.Args) > 1 && os.Args[1] == childFlag {
+		kit.Quiet()
+		childMain()
+		return
+	}
 	mc.Main(mc.Spec{
 		ID: "C15", Level: "model_checking",
-		Units: units,
-		Batch: func(tier string) int {
-			if tier == "thorough" {
-				return 1
-			}
-			return 2
-		},
+		Units:   units,
+		Batch:   func(tier string) int { return 1 },
 		RunUnit: runUnit,
 		Replay:  replay,
 		Setup:   func(string) { kit.Quiet() },
-		Rule: "unit = (start state, info updates per block, kinds of the blocks appended during the search, finality tag); inside a unit " +
-			"E-BFS over all histories of the events {L1Block, Finalize, SyncerProcess, Tick, Tick with one failing dependency (4 kinds), " +
-			"ForeignInject (2 targets)} up to the depth bound, each transition re-executed from scratch on a fresh real store and a fresh " +
-			"real oracle; states merged by (chain, finalized, syncer position, L2 roots, blockNumToFetch, oracle bookkeeping); " +
-			"non-trivial/distinct = executions reaching a state not seen before in the unit",
+		Rule: "unit = (start state, kinds of the blocks appended during the search, depth; finality tag and info updates per block rotate " +
+			"over the units); inside a unit E-BFS over all histories of the events {L1Block, Finalize, SyncerProcess, Tick, Tick with one " +
+			"failing dependency (4 kinds), ForeignInject (2 targets)} up to the depth bound, each transition re-executed from scratch on a " +
+			"fresh real store and a fresh real oracle; states merged by (chain, finalized, syncer position, L2 roots, blockNumToFetch, " +
+			"oracle bookkeeping); non-trivial/distinct = executions reaching a state not seen before in the unit",
 		Assumptions: []string{
 			"L1 does not reorg below what the syncer has processed (the oracle property is about finalized blocks; reorg handling of the store is C04/C06)",
 			"GERs are unique per leaf (exit roots come from append-only trees)",
 			"a failing dependency fails the next call of that kind once within the tick; failures of the store inside a transaction are C07",
 			"one oracle process; a second injector appears only as ForeignInject",
 			"the model L1 client answers the configured tag with the model's finalized pointer, a less final tag with the chain tip, a more final tag with an earlier block",
+			"progress is decided as bounded response: (P1) after a fault-free tick gave up on sampled block S because the syncer was behind, the first fault-free tick with the syncer at or past S and the root ≤ S still missing on L2 must decide (a failing dependency in between restarts the obligation); (P2) with the environment frozen, the syncer not behind the finalized block and the newest finalized root missing on L2, 3 fault-free ticks must inject it",
 		},
 		Bounds: func(tier string) map[string]any {
-			if tier == "thorough" {
-				return map[string]any{"depth": 10, "blocks_appended": "all 2^4 kind sequences", "updates_per_info_block": "1..2",
-					"start_states": 3, "tags": 3, "probe_ticks": probeTicks}
+			fams, inits := families(tier)
+			var fs []string
+			for _, f := range fams {
+				fs = append(fs, fmt.Sprintf("all 2^%d block-kind sequences to depth %d (start state 2: %d)", f.Blocks, f.Depth, f.Depth-1))
 			}
-			return map[string]any{"depth": 8, "blocks_appended": "all 2^3 kind sequences", "updates_per_info_block": "1..2",
-				"start_states": 2, "tags": "rotating over units", "probe_ticks": probeTicks}
+			return map[string]any{"families": fs, "start_states": len(inits), "updates_per_info_block": "1..2 (rotating)",
+				"tags": "FinalizedBlock, SafeBlock, LatestBlock (rotating)", "probe_ticks": probeTicks}
 		},
 	})
 }
